@@ -20,6 +20,13 @@ pub const ALPHABET: &[char] = &[
     '\t', '\0', 'é', 'š', 'ı', '٣', '１', '😀',
 ];
 
+/// characters outside the small alphabet whose case mapping, numeric value, width or byte length
+/// is unusual; substituted into the header and the first rows of every base text
+pub const EXOTIC: &[char] = &[
+    'ǅ', 'ǈ', 'ß', 'ẞ', 'ﬁ', 'İ', 'ſ', 'K', 'Å', '²', '³', '¹', '½', '¼', 'Ⅷ', 'ⅷ', 'Ⅰ', '①', '⑧', '۸', '८', '൮', '８', '２', 'ｇ', 'ｓ', 'ｗ', 'ｂ', 'Ｒ', 'ｒ', 'Ｅ', 'ｅ', 'ｘ', '｜', '│', '┃', '¦', 'ǀ', '∣', '＋',
+    '－', '–', '—', '\u{00A0}', '\u{2007}', '\u{2028}', '\u{2029}', '\u{0085}', '\u{000B}', '\u{000C}', '\u{200B}', '\u{200D}', '\u{FEFF}', '\u{202E}', '\u{0301}', '\u{0338}', '\u{1F1E6}', '\u{E0067}', '\u{10FFFF}', '\u{FFFD}', '\u{7F}', '\u{1B}', 'ρ', 'Ρ', 'е', 'Е', 'с', 'С', 'м', 'М', 'һ', 'ԁ', 'ｍ', 'Ｍ', 'ℝ', 'ℯ', '𝐑', '𝐫', '🄴',
+];
+
 #[derive(Clone, Copy, PartialEq, Eq, Debug)]
 pub enum Kind {
     GameState,
@@ -280,6 +287,22 @@ fn single_faults(base: &str, other: &str, f: &mut dyn FnMut(String, String)) {
             f(v.into_iter().collect(), format!("insert@{}={:?}", i, c));
         }
     }
+    // exotic characters in the header and the first two rows (substitution and insertion)
+    let head_len = base.split_inclusive('\n').take(4).map(|l| l.chars().count()).sum::<usize>().min(chars.len());
+    for i in 0..head_len {
+        for c in EXOTIC {
+            let mut v = chars.clone();
+            v[i] = *c;
+            f(v.into_iter().collect(), format!("substitute_exotic@{}={:?}", i, c));
+        }
+    }
+    for i in 0..=head_len.min(12) {
+        for c in EXOTIC {
+            let mut v = chars.clone();
+            v.insert(i, *c);
+            f(v.into_iter().collect(), format!("insert_exotic@{}={:?}", i, c));
+        }
+    }
     // an extra column holding a piece, at every position of every line
     for i in 0..=chars.len() {
         for tok in [" R", " r", "E "] {
@@ -309,6 +332,35 @@ fn single_faults(base: &str, other: &str, f: &mut dyn FnMut(String, String)) {
             v.insert(i, lines[i]);
         }
         f(v.concat(), format!("duplicate_line_x9@{}", i));
+    }
+    // amplification: the same line, an empty row, a separator or padding written many times
+    // (a retry loop that appends instead of overwriting; log lines or a table around the diagram)
+    for i in 0..lines.len() {
+        for times in [40usize, 300] {
+            let mut v = lines.clone();
+            for _ in 0..times {
+                v.insert(i, lines[i]);
+            }
+            f(v.concat(), format!("repeat_line_x{}@{}", times, i));
+        }
+        for (pad, name) in [(" ", "spaces"), ("|", "bars"), ("x ", "trap_marks"), ("| ", "empty_cells")] {
+            for times in [70usize, 600] {
+                let l = lines[i].trim_end_matches('\n');
+                let padded = format!("{}{}{}", l, pad.repeat(times), if lines[i].ends_with('\n') { "\n" } else { "" });
+                let mut v = lines.clone();
+                v[i] = &padded;
+                f(v.concat(), format!("pad_line_{}_x{}@{}", name, times, i));
+                let padded2 = format!("{}{}", pad.repeat(times), lines[i]);
+                let mut v = lines.clone();
+                v[i] = &padded2;
+                f(v.concat(), format!("prefix_line_{}_x{}@{}", name, times, i));
+            }
+        }
+    }
+    for times in [10usize, 40, 300] {
+        f(format!("{}{}", base, "|                 |\n".repeat(times)), format!("append_blank_rows_x{}", times));
+        f(format!("{}{}", "|                 |\n".repeat(times), base), format!("prepend_blank_rows_x{}", times));
+        f(format!("{}{}", base, "| a | b | c |\n".repeat(times)), format!("append_table_rows_x{}", times));
     }
     // duplicated spans in the header (grows the digit run)
     let hl = lines.first().map_or(0, |l| l.chars().count());
